@@ -46,6 +46,10 @@ class ApproximateNMFPredictor(BaseEstimator, RegressorMixin, MultiOutputMixin):
         BaseEstimator.__init__(self)
         RegressorMixin.__init__(self)
         MultiOutputMixin.__init__(self)
+        # Every parameter of NMF is defined, with NMF's default value,
+        # so that get_params reports the same keys for every instance.
+        for k, v in NMF().get_params().items():
+            setattr(self, k, v)
         for k, v in kwargs.items():
             setattr(self, k, v)
         self.force_positive = force_positive
